@@ -197,4 +197,18 @@ RatInt(num, den)   == Norm(DivSmallBE(num, den, 0, 10)[1])
 MustAccept(api, ty) == \/ api = "Output"     /\ ty \in {"int", "float", "str", "Value"}
                        \/ api = "add_output" /\ ty \in {"int", "float"}
                        \/ api \in {"Input", "add_input"} /\ ty \in {"int", "float", "str", "Value"}
+
+(* ---------------- the fee of a transaction ------------------------------ *)
+(* However a Transaction object comes to have a fee - constructor with inputs and outputs, with input_total /         *)
+(* output_total or fee arguments, add_input / add_output and update_totals(), parsing a raw transaction and filling in *)
+(* the input values, coinbase or not - the fee it reports is  sum(inputs) - sum(outputs)  exactly, an integer of the   *)
+(* smallest unit, never negative: a transaction whose outputs exceed its known inputs is refused or reports no fee.     *)
+(* A coinbase transaction may also report 0 (its input is, by definition, what it pays out).                           *)
+RECURSIVE SumBE(_)
+SumBE(amounts) == IF amounts = <<>> THEN <<>> ELSE Norm(Tup(Rev(AddLE(Rev(Head(amounts)), Rev(SumBE(Tail(amounts))), 10))))
+\* <<known, fee>>: whether the transaction can pay (inputs >= outputs) and, if so, its fee
+FeeOf(ins, outs) == LET i == SumBE(ins) o == SumBE(outs) IN
+                    IF Cmp(i, o) >= 0 THEN [pays |-> TRUE, fee |-> Norm(Tup(Rev(SubLE(Rev(i), Rev(o), 10))))]
+                    ELSE [pays |-> FALSE, fee |-> <<>>]
+DocumentedCarriers == {"int", "float", "str", "Value"}
 =============================================================================
